@@ -72,6 +72,12 @@ func enforceAlphabet() []estmt {
 		{Kind: "rej-simple-select-t-666-spelling", Msgs: sess.Q("/* x */ SELECT tok,  typed, id\nFROM t WHERE id = 666;"), Rejected: selDenied, Marker: "666"},
 		{Kind: "rej-ext-select-secrets", Msgs: sess.Ext("", "select v from secrets", nil, nil, []int16{1}, nil), Rejected: map[string]bool{"deny-table": true, "deny-pattern": true, "allow-then-denyall": true}, Marker: "secrets"},
 		{Kind: "rej-unparsable", Msgs: sess.Q("selec tok frm t 777"), Rejected: all, Marker: "777"},
+		// stacked statements: one simple-query message with an admitted and a denied statement, in both
+		// orders. PostgreSQL executes every statement of such a message and the proxy forwards a message as
+		// a whole, so the message must be withheld under every configuration here (the firewall's SQL reader
+		// does not accept it and none tolerates parse errors; its second / first statement is denied on its own)
+		{Kind: "rej-simple-stacked-select-then-insert-secrets", Msgs: sess.Q("select id, tok, typed from t; insert into secrets (id, v) values (1, 'x')"), Rejected: all, Marker: "secrets"},
+		{Kind: "rej-simple-stacked-insert-secrets-then-select", Msgs: sess.Q("insert into secrets (id, v) values (1, 'x'); select id, tok, typed from t"), Rejected: all, Marker: "secrets"},
 	}
 }
 
@@ -116,10 +122,16 @@ func runEnforceSession(r *ev.Run, env *sess.PGEnv, fw fwConfig, seq []estmt) (vi
 		if err != nil {
 			return viol, fmt.Sprintf("%s: %v", st.Kind, err)
 		}
+		// the scripted database could not serve what reached it: a harness problem for an accepted
+		// statement; for a rejected one it is the finding itself (nothing may reach the database)
+		dbRefused := ""
 		for _, m := range res.DBSent {
 			if e, ok := m.B.(*pgproto3.ErrorResponse); ok && e.Code == "XXVRF" {
-				return viol, fmt.Sprintf("%s: reference database: %s", st.Kind, e.Message)
+				dbRefused = e.Message
 			}
+		}
+		if dbRefused != "" && !st.Rejected[fw.Name] {
+			return viol, fmt.Sprintf("%s: reference database: %s", st.Kind, dbRefused)
 		}
 		ctx := "after-accepted"
 		if rejectedBefore != "" {
@@ -172,6 +184,9 @@ func runEnforceSession(r *ev.Run, env *sess.PGEnv, fw fwConfig, seq []estmt) (vi
 				kind = "rejected-extended"
 			}
 			rejectedBefore = kind
+			if dbRefused != "" {
+				return // reported above as forwarded; the scripted database cannot go on from here
+			}
 			continue
 		}
 		want := shadow.Direct(st.Msgs)
@@ -280,4 +295,9 @@ func enforcementPhase(r *ev.Run) {
 	r.States(sessions)
 	r.Set("enforcement_sessions", sessions)
 	r.Set("enforcement_depth", depth)
+	var kinds []string
+	for _, a := range alphabet {
+		kinds = append(kinds, a.Kind)
+	}
+	r.Set("enforcement_alphabet", kinds)
 }
